@@ -195,6 +195,8 @@ class Engine:
                         if m.group(3) in unit.roots:
                             nh.append(f"extern {m.group(1)} {unit.prefix}{m.group(3)}({m.group(4)});\n#define {m.group(2)} {unit.prefix}{m.group(3)}")
                     nh.append(f"static void {unit.prefix}ll2c_init_globals(void) {{}}")
+                    nh.append("#define VK_REAL_CODE 1")
+                    nh.append("extern uint64_t vk_set_limit(uint8_t*, uint64_t, uint8_t*, uint64_t, uint64_t, uint64_t);")
                     open(ent["path"][:-2] + "_native.h", "w").write("\n".join(nh) + "\n")
             except Exception as e:  # noqa
                 ent["err"] = str(e)
